@@ -50,6 +50,9 @@ type ProcResult struct {
 	Wall     time.Duration
 }
 
+// BaseEnv is the clean environment for child go commands (default toolchain, offline).
+func BaseEnv(extra []string) []string { return baseEnv(extra) }
+
 func baseEnv(extra []string) []string {
 	var env []string
 	for _, kv := range os.Environ() {
